@@ -32,7 +32,7 @@ class C09(BaseCheck):
   ASSUMPTIONS = ('initial_wait_interval > 1 (the implementation\'s x**exponent back-off only grows above 1)',
                  'black-holed connects give up after 3 s in these scenarios (SYN timeout shortened so that '
                  'attempt durations stay small against the retry intervals)')
-  QUICK_CASES = 128
+  QUICK_CASES = 256
   THOROUGH_CASES = 3000
   QUICK_WALL = 60
   THOROUGH_WALL = 480
